@@ -351,6 +351,10 @@ func ruleNotFound(c *core.Ctx) {
 					return lk, core.IsTrue(okOf(lk))
 				}
 			}
+			// the lookup may live in an accessor taking the lock itself: v, ok := r.lookup(id)
+			if lh := findLookupHelper(c, fn, fld); lh != nil {
+				return lh.call, core.IsTrue(lh.isOK)
+			}
 			return nil, nil
 		}
 	}
@@ -412,6 +416,21 @@ func ruleRemovalKeys(c *core.Ctx) {
 			continue
 		}
 		_, dels := mapWrites(fn, fld)
+		// the critical section may live in a helper that is handed the id (obj, ok := s.detach(id))
+		var via *ssa.Call
+		var viaFn *ssa.Function
+		if len(dels) == 0 {
+			for _, call := range core.Calls(fn) {
+				h := core.StaticCallee(call)
+				cv, plain := call.(*ssa.Call)
+				if h == nil || !plain || h == fn || !inRepo(h) || h.Pkg != fn.Pkg {
+					continue
+				}
+				if _, hd := mapWrites(h, fld); len(hd) > 0 {
+					dels, via, viaFn = hd, cv, h
+				}
+			}
+		}
 		if len(dels) == 0 {
 			c.Fail(rule, key, fn.Pos(), "the removal entry point does not delete from "+s.field)
 			continue
@@ -419,7 +438,23 @@ func ruleRemovalKeys(c *core.Ctx) {
 		ok := true
 		for _, d := range dels {
 			k := core.Canon(d.Call.Args[1])
-			if p, isP := k.(*ssa.Parameter); !isP || p.Parent() != fn {
+			p, isP := k.(*ssa.Parameter)
+			switch {
+			case isP && via == nil && p.Parent() == fn:
+			case isP && via != nil && p.Parent() == viaFn:
+				// the helper's key parameter receives the request's id
+				bound := false
+				for i, hp := range viaFn.Params {
+					if hp == p && i < len(via.Call.Args) {
+						if ap, isAP := core.Canon(via.Call.Args[i]).(*ssa.Parameter); isAP && ap.Parent() == fn {
+							bound = true
+						}
+					}
+				}
+				if !bound {
+					ok = false
+				}
+			default:
 				ok = false
 			}
 		}
